@@ -52,7 +52,9 @@ func cmdFunc(mode string, args []string) {
 	keys := fs.Args()
 	pats := map[string]bool{}
 	for i, k := range keys {
-		if !strings.HasPrefix(k, modulePrefix) {
+		if strings.HasPrefix(k, ".") {
+			keys[i] = modulePrefix + k
+		} else if !strings.HasPrefix(k, modulePrefix) {
 			keys[i] = modulePrefix + "/" + k
 			if strings.HasPrefix(k, ".") || !strings.Contains(k, "/") && !strings.Contains(strings.SplitN(k, ".", 2)[0], "(") && false {
 			}
